@@ -87,3 +87,40 @@ func VerifC16_PopOrder() {
 		}
 	}
 }
+
+// VerifC16_BoundedQueueKeepsBest: with a configured queue depth the scheduler considers only that
+// many jobs of a queue; the ones it keeps must be the best by the job order (otherwise a lower
+// priority / younger job is attempted while a higher-priority / older identical one is not).
+// BOUND: 3 jobs, any push permutation, queue depth 1 or 2 (depth-2 class reported separately)
+func VerifC16_BoundedQueueKeepsBest() {
+	vm := resource_info.NewResourceVectorMap()
+	ssn := c16Session()
+	jobs := []*podgroup_info.PodGroupInfo{c16Job("a", vm), c16Job("b", vm), c16Job("c", vm)}
+	perms := [][]int{{0, 1, 2}, {0, 2, 1}, {1, 0, 2}, {1, 2, 0}, {2, 0, 1}, {2, 1, 0}}
+	depth := vr.Choose("depth", 2) + 1
+	pq := scheduler_util.NewPriorityQueue(ssn.JobOrderFn, depth)
+	for _, i := range perms[vr.Choose("pushOrder", 6)] {
+		pq.Push(jobs[i])
+	}
+	kept := map[*podgroup_info.PodGroupInfo]bool{}
+	n := 0
+	for !pq.Empty() {
+		kept[pq.Pop().(*podgroup_info.PodGroupInfo)] = true
+		n++
+	}
+	vr.Assert(n == depth, "C16.bounded-queue-keeps-depth-jobs")
+	class := ""
+	if depth >= 2 {
+		class = "#depth-above-1"
+	}
+	for _, d := range jobs {
+		if kept[d] {
+			continue
+		}
+		for _, k := range jobs {
+			if kept[k] {
+				vr.Assert(ssn.JobOrderFn(k, d), "C16.bounded-queue-drops-only-the-worst-jobs"+class)
+			}
+		}
+	}
+}
